@@ -100,28 +100,34 @@ Section RT.
   Notation fs := (flds m).
   Notation n := (length (flds m)).
 
-  (* zero or more unrecognised elements the parser must skip *)
-  Inductive unk : bytes -> Prop :=
-  | unk_nil : unk []
-  | unk_cons t pl u : is_unk m ic t -> small pl -> unk u -> unk (tlv t pl ++ u).
+  (* a run of unrecognised elements.  c = false: zero or more elements the parser must skip.
+     c = true: such a run followed by an unrecognised CRITICAL element (the caller did not ask to ignore critical
+     ones) and then arbitrary bytes: the parser must stop there with an error. *)
+  Inductive unk (c : bool) : bytes -> Prop :=
+  | unk_nil : c = false -> unk c []
+  | unk_cons t pl u : is_unk m ic t -> small pl -> unk c u -> unk c (tlv t pl ++ u)
+  | unk_crit t l junk : c = true -> find_field t 0 fs = None -> critical t = true -> ic = false ->
+                        t < two64 -> l < two64 -> unk c (tl_enc t ++ tl_enc l ++ junk).
 
-  (* the element list with runs of unrecognised elements between, before and after *)
-  Inductive mixed : list bytes -> bytes -> Prop :=
-  | mixed_nil u : unk u -> mixed [] u
-  | mixed_cons u e es x : unk u -> mixed es x -> mixed (e :: es) (u ++ e ++ x).
+  (* the element list with runs of unrecognised elements between, before and after; with c = true the stream stops at
+     a critical unrecognised element somewhere (the remaining elements are then irrelevant) *)
+  Inductive mixed (c : bool) : list bytes -> bytes -> Prop :=
+  | mixed_nil u : unk c u -> mixed c [] u
+  | mixed_cons u e es x : unk false u -> mixed c es x -> mixed c (e :: es) (u ++ e ++ x)
+  | mixed_stop u es : c = true -> unk true u -> mixed c es u.
 
-  Lemma mixed_concat es : mixed es (concat es).
+  Lemma mixed_concat es : mixed false es (concat es).
   Proof.
     induction es as [|e es IH]; cbn [concat].
-    - apply mixed_nil. constructor.
-    - apply (mixed_cons [] e es (concat es)); [constructor|exact IH].
+    - apply mixed_nil. constructor. reflexivity.
+    - apply (mixed_cons false [] e es (concat es)); [constructor; reflexivity|exact IH].
   Qed.
 
-  Lemma b_ploop_unk : forall u, unk u -> forall k s p pre x, (p < Z.of_nat n)%Z -> (length (u ++ x) < k)%nat ->
+  Lemma b_ploop_unk : forall u, unk false u -> forall k s p pre x, (p < Z.of_nat n)%Z -> (length (u ++ x) < k)%nat ->
     exists k', (length x < k')%nat /\
       b_ploop sub k m ic s p (mkbr pre (u ++ x)) = b_ploop sub k' m ic s p (mkbr (rev u ++ pre) x).
   Proof.
-    induction 1 as [|t pl u Ht Hs Hu IH]; intros k s p pre x Hp Hk.
+    induction 1 as [_|t pl u Ht Hs Hu IH|t l junk Hc]; intros k s p pre x Hp Hk; [| |discriminate Hc].
     - exists k. split; [exact Hk|reflexivity].
     - destruct k as [|k]; [lia|].
       rewrite <- app_assoc. rewrite (b_ploop_step sub m nm Hm ic).
@@ -130,6 +136,34 @@ Section RT.
       destruct (IH k s p (rev (tlv t pl) ++ pre) x Hp) as [k' [Hk' E]].
       + rewrite <- app_assoc, app_length in Hk. pose proof (tlv_length_ge2 t pl). cbn [length] in Hk. lia.
       + exists k'. split; [exact Hk'|]. rewrite E. rewrite rev_app_distr, <- app_assoc. reflexivity.
+  Qed.
+
+  (* a critical unrecognised element stops the parser with ErrUnrecognizedField *)
+  Lemma b_pstep_crit t l junk sp s p pre :
+    find_field t 0 fs = None -> critical t = true -> ic = false -> t < two64 -> l < two64 -> (p < Z.of_nat n)%Z ->
+    exists r', b_pstep sub m ic sp s p (mkbr pre (tl_enc t ++ tl_enc l ++ junk)) = RErr E_CRITICAL r'.
+  Proof.
+    intros Hnf Hc Hic Ht Hl Hp. unfold pstep.
+    rewrite (b_rd_tlnum_enc t pre (tl_enc l ++ junk) Ht). cbn [negb].
+    rewrite (b_rd_tlnum_enc l (rev (tl_enc t) ++ pre) junk Hl). cbn [negb].
+    destruct (ordered m).
+    - cbn [oloop]. destruct (p >=? Z.of_nat n)%Z eqn:E; [lia|]. rewrite Hnf.
+      unfold rd_unknown. rewrite Hic, Hc. cbn [negb andb]. eexists; reflexivity.
+    - unfold ustep. rewrite Hnf. unfold rd_unknown. rewrite Hic, Hc. cbn [negb andb]. eexists; reflexivity.
+  Qed.
+
+  Lemma b_ploop_unk_crit : forall u, unk true u -> forall k s p pre, (p < Z.of_nat n)%Z -> (length u < k)%nat ->
+    b_ploop sub k m ic s p (mkbr pre u) = Err E_CRITICAL.
+  Proof.
+    induction 1 as [Hc|t pl u Ht Hs Hu IH|t l junk _ Hnf Hc Hic Ht Hl]; intros k s p pre Hp Hk; [discriminate Hc| |].
+    - destruct k as [|k]; [lia|].
+      rewrite (b_ploop_step sub m nm Hm ic). 2:{ apply tlv_app_nonnil. }
+      rewrite (b_pstep_unk sub m nm Hm ic t pl _ s p pre u Ht Hs Hp).
+      apply IH; [exact Hp|]. rewrite app_length in Hk. pose proof (tlv_length_ge2 t pl). lia.
+    - destruct k as [|k]; [lia|].
+      rewrite (b_ploop_step sub m nm Hm ic).
+      2:{ pose proof (tl_enc_length t). pose proof (tl_len_pos t). destruct (tl_enc t); [cbn in *; lia|discriminate]. }
+      destruct (b_pstep_crit t l junk (Z.of_nat (length pre)) s p pre Hnf Hc Hic Ht Hl Hp) as [r' E]. rewrite E. reflexivity.
   Qed.
 
   (* ---- the loop invariant: fields before i are done ---- *)
@@ -206,8 +240,14 @@ Section RT.
   Lemma single_is_data k : single k = true -> kind_is_data k = true.
   Proof. destruct k; intros H; try reflexivity; discriminate H. Qed.
 
-  Lemma mixed_inv_cons e es x : mixed (e :: es) x -> exists u x1, x = u ++ e ++ x1 /\ unk u /\ mixed es x1.
-  Proof. intros H. inversion H; subst. eauto. Qed.
+  Lemma mixed_inv_cons c e es x : mixed c (e :: es) x ->
+    (exists u x1, x = u ++ e ++ x1 /\ unk false u /\ mixed c es x1) \/ (c = true /\ unk true x).
+  Proof. intros H. inversion H; subst; [left; eauto|right; auto]. Qed.
+
+  (* the outcome of a run that hits the critical element *)
+  Lemma crit_now c x k s p pre : c = true -> unk true x -> (p < Z.of_nat n)%Z -> (length x < k)%nat ->
+    c = true /\ b_ploop sub k m ic s p (mkbr pre x) = Err E_CRITICAL.
+  Proof. intros Hc Hu Hp Hk. split; [exact Hc|]. apply b_ploop_unk_crit; assumption. Qed.
 
   Lemma firstn_len_i i : (i <= length vs)%nat -> length (firstn i vs) = i.
   Proof. intros H. apply firstn_length_le. exact H. Qed.
@@ -215,16 +255,20 @@ Section RT.
   (* ---- a present single-element field ---- *)
   Lemma step_single i g : nth_error fs i = Some g -> single (fk g) = true -> present (fk g) (nth i vs VNone) = true ->
     small (enc_val (S f) sc (ftyp g) (fk g) (nth i vs VNone)) ->
-    forall es x k s p pre, inv i s p -> mixed (enc_val (S f) sc (ftyp g) (fk g) (nth i vs VNone) :: es) x -> (length x < k)%nat ->
-    exists k' s' p' pre' x', mixed es x' /\ inv (S i) s' p' /\ (length x' < k')%nat /\
+    forall c es x k s p pre, inv i s p -> mixed c (enc_val (S f) sc (ftyp g) (fk g) (nth i vs VNone) :: es) x -> (length x < k)%nat ->
+    (c = true /\ b_ploop sub k m ic s p (mkbr pre x) = Err E_CRITICAL) \/
+    exists k' s' p' pre' x', mixed c es x' /\ inv (S i) s' p' /\ (length x' < k')%nat /\
       b_ploop sub k m ic s p (mkbr pre x) = b_ploop sub k' m ic s' p' (mkbr pre' x').
   Proof.
-    intros Hg Hs Hp Hsm es x k s p pre Hinv Hmix Hk.
+    intros Hg Hs Hp Hsm c es x k s p pre Hinv Hmix Hk.
+    assert (Hin0 : (i < n)%nat) by (apply nth_error_Some; congruence).
     set (v := nth i vs VNone) in *.
     pose proof (wf_at i g Hg) as Hw. fold v in Hw.
     pose proof (inv_to_mid i g s p Hg Hinv) as Hmid.
     assert (Hi : (i < length vs)%nat) by (rewrite len_vs; apply nth_error_Some; congruence).
-    destruct (mixed_inv_cons _ _ _ Hmix) as [u [x1 [-> [Hu Hm1]]]].
+    destruct (mixed_inv_cons _ _ _ _ Hmix) as [[u [x1 [-> [Hu Hm1]]]] | [Hc Hcrit]].
+    2:{ left. apply crit_now; auto. destruct Hinv as [_ _ Ip _ _]. lia. }
+    right.
     rewrite (enc_val_single f sc (ftyp g) (fk g) v Hs Hw Hp) in *.
     set (pl := payload f sc (fk g) v) in *.
     assert (Hspl : small pl).
@@ -278,11 +322,12 @@ Section RT.
   Lemma fuel_S e : wf_val f sc (fk e) VNone = true \/ True -> True.
   Proof. auto. Qed.
 
-  Lemma step_seq i g k0 : nth_error fs i = Some g -> fk g = KSeq k0 -> seq_sub_ok k0 = true ->
+  Lemma step_seq c i g k0 : nth_error fs i = Some g -> fk g = KSeq k0 -> seq_sub_ok k0 = true ->
     forall l old es x k s p pre,
     (forall e, In e l -> is_none e = false /\ wf_val f sc k0 e = true /\ small (enc_val f sc (ftyp g) k0 e)) ->
-    inv_mid i (VSeq old) s p -> mixed (map (enc_val f sc (ftyp g) k0) l ++ es) x -> (length x < k)%nat ->
-    exists k' s' p' pre' x', mixed es x' /\ inv_mid i (VSeq (old ++ l)) s' p' /\ (length x' < k')%nat /\
+    inv_mid i (VSeq old) s p -> mixed c (map (enc_val f sc (ftyp g) k0) l ++ es) x -> (length x < k)%nat ->
+    (c = true /\ b_ploop sub k m ic s p (mkbr pre x) = Err E_CRITICAL) \/
+    exists k' s' p' pre' x', mixed c es x' /\ inv_mid i (VSeq (old ++ l)) s' p' /\ (length x' < k')%nat /\
       b_ploop sub k m ic s p (mkbr pre x) = b_ploop sub k' m ic s' p' (mkbr pre' x').
   Proof.
     intros Hg Hk Hsub0.
@@ -290,8 +335,9 @@ Section RT.
     assert (Hin : (i < n)%nat) by (apply nth_error_Some; congruence).
     assert (Hd : kind_is_data (fk g) = true) by (rewrite Hk; reflexivity).
     induction l as [|e l IH]; intros old es x k s p pre Hl Hmid Hmix Hk0.
-    - exists k, s, p, pre, x. rewrite app_nil_r. auto.
-    - cbn [map app] in Hmix. destruct (mixed_inv_cons _ _ _ Hmix) as [u [x1 [-> [Hu Hm1]]]].
+    - right. exists k, s, p, pre, x. rewrite app_nil_r. auto.
+    - cbn [map app] in Hmix. destruct (mixed_inv_cons _ _ _ _ Hmix) as [[u [x1 [-> [Hu Hm1]]]] | [Hc Hcrit]].
+      2:{ left. apply crit_now; auto. destruct Hmid as [_ _ Ip _ _]. lia. }
       destruct (Hl e (or_introl eq_refl)) as [Hne [Hwe Hse]].
       assert (Hf0 : exists f0, f = S f0).
       { destruct f as [|f0]; [discriminate Hwe|exists f0; reflexivity]. }
@@ -319,12 +365,13 @@ Section RT.
       pose proof (mid_update i (VSeq old) (VSeq (old ++ [e])) s s1 s2 p Hi Hmid V1 H1 V2 H2) as Hmid2.
       destruct (IH (old ++ [e]) es x1 k2 s2 (if ordered m then (Z.of_nat i - 1)%Z else p)
                   (rev pl ++ rev (tl_enc (N.of_nat (length pl))) ++ rev (tl_enc (ftyp g)) ++ rev u ++ pre))
-        as [k' [s' [p' [pre' [x' [A1 [A2 [A3 A4]]]]]]]].
+        as [[Hc A4] | [k' [s' [p' [pre' [x' [A1 [A2 [A3 A4]]]]]]]]].
       + intros e' He'. apply Hl. right. exact He'.
       + exact Hmid2.
       + rewrite Ef0. exact Hm1.
       + rewrite !app_length in Hk1. pose proof (tlv_length_ge2 (ftyp g) pl). lia.
-      + exists k', s', p', pre', x'. rewrite <- app_assoc in A2. cbn [app] in A2.
+      + left. split; [exact Hc|]. rewrite <- A4. destruct (ordered m); reflexivity.
+      + right. exists k', s', p', pre', x'. rewrite <- app_assoc in A2. cbn [app] in A2.
         split; [exact A1|]. split; [exact A2|]. split; [exact A3|].
         rewrite <- A4. destruct (ordered m); reflexivity.
   Qed.
@@ -359,7 +406,7 @@ Section RT.
     - eapply IH; eauto.
   Qed.
 
-  Lemma step_map i g key vt val : nth_error fs i = Some g -> fk g = KMap key vt val ->
+  Lemma step_map c i g key vt val : nth_error fs i = Some g -> fk g = KMap key vt val ->
     map_key_ok key = true -> map_val_ok val = true -> vt < two64 ->
     forall l old es x k s p pre,
     (forall kv, In kv l -> is_none (fst kv) = false /\ is_none (snd kv) = false /\
@@ -367,8 +414,9 @@ Section RT.
                            small (enc_val f sc (ftyp g) key (fst kv) ++ enc_val f sc vt val (snd kv))) ->
     keys_nodup (old ++ l) = true ->
     inv_mid i (VMap old) s p ->
-    mixed (map (fun kv => enc_val f sc (ftyp g) key (fst kv) ++ enc_val f sc vt val (snd kv)) l ++ es) x -> (length x < k)%nat ->
-    exists k' s' p' pre' x', mixed es x' /\ inv_mid i (VMap (old ++ l)) s' p' /\ (length x' < k')%nat /\
+    mixed c (map (fun kv => enc_val f sc (ftyp g) key (fst kv) ++ enc_val f sc vt val (snd kv)) l ++ es) x -> (length x < k)%nat ->
+    (c = true /\ b_ploop sub k m ic s p (mkbr pre x) = Err E_CRITICAL) \/
+    exists k' s' p' pre' x', mixed c es x' /\ inv_mid i (VMap (old ++ l)) s' p' /\ (length x' < k')%nat /\
       b_ploop sub k m ic s p (mkbr pre x) = b_ploop sub k' m ic s' p' (mkbr pre' x').
   Proof.
     intros Hg Hk Hkey Hval Hvt.
@@ -376,8 +424,9 @@ Section RT.
     assert (Hin : (i < n)%nat) by (apply nth_error_Some; congruence).
     assert (Hd : kind_is_data (fk g) = true) by (rewrite Hk; reflexivity).
     induction l as [|[kx vx] l IH]; intros old es x k s p pre Hl Hnd Hmid Hmix Hk0.
-    - exists k, s, p, pre, x. rewrite app_nil_r. auto.
-    - cbn [map app fst snd] in Hmix. destruct (mixed_inv_cons _ _ _ Hmix) as [u [x1 [-> [Hu Hm1]]]].
+    - right. exists k, s, p, pre, x. rewrite app_nil_r. auto.
+    - cbn [map app fst snd] in Hmix. destruct (mixed_inv_cons _ _ _ _ Hmix) as [[u [x1 [-> [Hu Hm1]]]] | [Hc Hcrit]].
+      2:{ left. apply crit_now; auto. destruct Hmid as [_ _ Ip _ _]. clear - Ip Hin. lia. }
       destruct (Hl (kx, vx) (or_introl eq_refl)) as [Hnk [Hnv [Hwk [Hwv Hse]]]]. cbn [fst snd] in *.
       assert (Hf0 : exists f0, f = S f0).
       { destruct f as [|f0]; [discriminate Hwk|exists f0; reflexivity]. }
@@ -419,13 +468,14 @@ Section RT.
       pose proof (mid_update i (VMap old) (VMap (old ++ [(kx, vx)])) s s1 s2 p Hi Hmid V1 H1 V2 H2) as Hmid2.
       destruct (IH (old ++ [(kx, vx)]) es x1 k2 s2 (if ordered m then (Z.of_nat i - 1)%Z else p)
                   (rev (plk ++ tlv vt plv) ++ rev (tl_enc (N.of_nat (length plk))) ++ rev (tl_enc (ftyp g)) ++ rev u ++ pre))
-        as [k' [s' [p' [pre' [x' [A1 [A2 [A3 A4]]]]]]]].
+        as [[Hc A4] | [k' [s' [p' [pre' [x' [A1 [A2 [A3 A4]]]]]]]]].
       + intros kv Hkv. apply Hl. right. exact Hkv.
       + rewrite <- app_assoc. exact Hnd.
       + exact Hmid2.
       + rewrite Ef0. exact Hm1.
       + pose proof (tlv_length_ge2 (ftyp g) plk) as Hge. clear - Hk1 Hge. rewrite !app_length in Hk1. lia.
-      + exists k', s', p', pre', x'. rewrite <- app_assoc in A2. cbn [app] in A2.
+      + left. split; [exact Hc|]. rewrite <- A4. destruct (ordered m); reflexivity.
+      + right. exists k', s', p', pre', x'. rewrite <- app_assoc in A2. cbn [app] in A2.
         split; [exact A1|]. split; [exact A2|]. split; [exact A3|].
         rewrite <- A4. destruct (ordered m); reflexivity.
   Qed.
@@ -479,15 +529,22 @@ Section RT.
   Qed.
 
   (* ---- the whole loop ---- *)
-  Lemma fields_loop : forall rem i, (rem = n - i)%nat -> (i <= n)%nat ->
-    forall x k s p pre, inv i s p -> mixed (elems_fields f sc (skipn i fs) (skipn i vs)) x -> (length x < k)%nat ->
-    exists cx cv, b_ploop sub k m ic s p (mkbr pre x) = Ok (vs, cx, cv).
+  Lemma mixed_inv_nil c x : mixed c [] x -> unk c x \/ (c = true /\ unk true x).
+  Proof. intros H. inversion H; subst; [left; assumption|right; auto]. Qed.
+
+  Lemma fields_loop c : forall rem i, (rem = n - i)%nat -> (i <= n)%nat ->
+    forall x k s p pre, inv i s p -> mixed c (elems_fields f sc (skipn i fs) (skipn i vs)) x -> (length x < k)%nat ->
+    if c then b_ploop sub k m ic s p (mkbr pre x) = Err E_CRITICAL
+    else exists cx cv, b_ploop sub k m ic s p (mkbr pre x) = Ok (vs, cx, cv).
   Proof.
     induction rem as [|rem IH]; intros i Hrem Hi x k s p pre Hinv Hmix Hk.
     - (* all fields done: trailing unrecognised elements, then the final pass *)
       assert (i = n) by lia. subst i.
-      rewrite skipn_all in Hmix. cbn [elems_fields] in Hmix. inversion Hmix as [u Hu|]; subst.
+      rewrite skipn_all in Hmix. cbn [elems_fields] in Hmix.
       destruct Hinv as [Iv Ih Ip Iw Il].
+      destruct (mixed_inv_nil _ _ Hmix) as [Hu | [Hc Hu]].
+      2:{ subst c. apply b_ploop_unk_crit; [exact Hu|lia|exact Hk]. }
+      destruct c; [apply b_ploop_unk_crit; [exact Hu|lia|exact Hk]|].
       destruct (b_ploop_unk x Hu k s p pre []) as [k1 [Hk1 E1]]; [lia|rewrite app_nil_r; exact Hk|].
       rewrite app_nil_r in E1. rewrite E1. destruct k1 as [|k2]; [cbn in Hk1; lia|].
       rewrite (b_ploop_end sub m nm Hm ic).
@@ -509,9 +566,10 @@ Section RT.
       pose proof (small_field fs vs i g Hsmall Hg) as Hsv. fold v in Hsv.
       assert (Hil : (i < length vs)%nat) by (rewrite len_vs; exact Hlt).
       (* after field i: continue with the induction hypothesis *)
-      assert (Hnext : forall k' s' p' pre' x', mixed (elems_fields f sc (skipn (S i) fs) (skipn (S i) vs)) x' ->
+      assert (Hnext : forall k' s' p' pre' x', mixed c (elems_fields f sc (skipn (S i) fs) (skipn (S i) vs)) x' ->
                 inv (S i) s' p' -> (length x' < k')%nat ->
-                exists cx cv, b_ploop sub k' m ic s' p' (mkbr pre' x') = Ok (vs, cx, cv)).
+                if c then b_ploop sub k' m ic s' p' (mkbr pre' x') = Err E_CRITICAL
+                else exists cx cv, b_ploop sub k' m ic s' p' (mkbr pre' x') = Ok (vs, cx, cv)).
       { intros k' s' p' pre' x' A1 A2 A3. apply (IH (S i)); auto; lia. }
       pose proof (inv_to_mid i g s p Hg Hinv) as Hmid0.
       destruct (is_rep (fk g)) eqn:Erep.
@@ -521,10 +579,11 @@ Section RT.
           destruct v as [| | | | | |l| |] eqn:Ev; try discriminate Hw.
           cbn [elems_val] in Hmix. cbn [zero_of] in Hmid0.
           cbn [wf_val] in Hw. rewrite forallb_forall in Hw.
-          destruct (step_seq i g sub0 Hg Ek (wf_seq_sub i g sub0 Hg Ek) l [] (elems_fields f sc (skipn (S i) fs) (skipn (S i) vs)) x k s p pre) as [k' [s' [p' [pre' [x' [A1 [A2 [A3 A4]]]]]]]]; auto.
+          destruct (step_seq c i g sub0 Hg Ek (wf_seq_sub i g sub0 Hg Ek) l [] (elems_fields f sc (skipn (S i) fs) (skipn (S i) vs)) x k s p pre) as [[Hc A4] | [k' [s' [p' [pre' [x' [A1 [A2 [A3 A4]]]]]]]]]; auto.
           { intros e He. specialize (Hw e He). apply andb_true_iff in Hw as [W1 W2]. apply negb_true_iff in W1.
             split; [exact W1|]. split; [exact W2|].
             cbn [enc_val] in Hsv. apply (small_concat_in _ _ Hsv). apply in_map. exact He. }
+          { subst c. exact A4. }
           rewrite A4. cbn [app] in A2. destruct A2 as [Mv Mh Mp Mw Ml].
           apply Hnext; auto. apply (make_inv i g); auto.
           -- fold v. rewrite Ev. exact Mv.
@@ -540,12 +599,13 @@ Section RT.
           cbn [elems_val] in Hmix. cbn [zero_of] in Hmid0.
           cbn [wf_val] in Hw. apply andb_true_iff in Hw as [Hw Hnd]. rewrite forallb_forall in Hw.
           destruct (wf_map_sub i g key vt val Hg Ek) as [Hkey [Hval Hvt]].
-          destruct (step_map i g key vt val Hg Ek Hkey Hval Hvt l [] (elems_fields f sc (skipn (S i) fs) (skipn (S i) vs)) x k s p pre) as [k' [s' [p' [pre' [x' [A1 [A2 [A3 A4]]]]]]]]; auto.
+          destruct (step_map c i g key vt val Hg Ek Hkey Hval Hvt l [] (elems_fields f sc (skipn (S i) fs) (skipn (S i) vs)) x k s p pre) as [[Hc A4] | [k' [s' [p' [pre' [x' [A1 [A2 [A3 A4]]]]]]]]]; auto.
           { intros kv He. specialize (Hw kv He).
             apply andb_true_iff in Hw as [Hw W4]. apply andb_true_iff in Hw as [Hw W3]. apply andb_true_iff in Hw as [W1 W2].
             apply negb_true_iff in W1. apply negb_true_iff in W3. repeat split; auto.
             cbn [enc_val] in Hsv. apply (small_concat_in _ _ Hsv).
             apply (in_map (fun kv0 => enc_val f sc (ftyp g) key (fst kv0) ++ enc_val f sc vt val (snd kv0)) l kv He). }
+          { subst c. exact A4. }
           rewrite A4. cbn [app] in A2. destruct A2 as [Mv Mh Mp Mw Ml].
           apply Hnext; auto. apply (make_inv i g); auto.
           -- fold v. rewrite Ev. exact Mv.
@@ -563,7 +623,8 @@ Section RT.
         rewrite Hel in Hmix.
         destruct (single (fk g) && present (fk g) v) eqn:Esp.
         * apply andb_true_iff in Esp as [Es Ep]. cbn [app] in Hmix.
-          destruct (step_single i g Hg Es Ep Hsv (elems_fields f sc (skipn (S i) fs) (skipn (S i) vs)) x k s p pre Hinv Hmix Hk) as [k' [s' [p' [pre' [x' [A1 [A2 [A3 A4]]]]]]]].
+          destruct (step_single i g Hg Es Ep Hsv c (elems_fields f sc (skipn (S i) fs) (skipn (S i) vs)) x k s p pre Hinv Hmix Hk) as [[Hc A4] | [k' [s' [p' [pre' [x' [A1 [A2 [A3 A4]]]]]]]]].
+          { subst c. exact A4. }
           rewrite A4. apply Hnext; auto.
         * cbn [app] in Hmix.
           assert (Hz : v = zero_of (fk g)).
